@@ -10,3 +10,6 @@ open MtailVerif.C23
 #print axioms formatter_precedence_matches_grammar
 #print axioms source_shape
 #print axioms format_parse_assignment
+#print axioms MtailVerif.C23.lex_skeletons
+#print axioms MtailVerif.C23.text_skeletons
+#print axioms MtailVerif.C23.unparseBefore_skeletons
